@@ -30,6 +30,16 @@ pub enum Sender<T, E> {
     ReqRep(mpsc::Sender<reqrep::Socket<E>>),
 }
 
+// Not derived: cloning a channel handle needs no `Clone` bound on the socket types
+impl<T, E> Clone for Sender<T, E> {
+    fn clone(&self) -> Self {
+        match self {
+            Self::Pubsub(s) => Self::Pubsub(s.clone()),
+            Self::ReqRep(s) => Self::ReqRep(s.clone()),
+        }
+    }
+}
+
 impl<T, E> Sender<T, E> {
     pub async fn send(&mut self, sock: Socket<T, E>) -> Result<()> {
         match self {
